@@ -333,6 +333,69 @@ WHOLE_STREAM_DUNDERS = ('__len__', '__bool__', '__contains__',
                         '__getitem__', '__reversed__', '__length_hint__')
 
 
+def _drained_lambda_results(repo, fi, env):
+    out = []
+    for c in model.calls_in(fi.node):
+        d = repo.resolve(fi.module, c.func, model.scope_locals(fi))
+        if d not in consume.EAGER or consume.EAGER[d] == () or not c.args:
+            continue
+        idxs = consume.EAGER[d]
+        idxs = range(len(c.args)) if idxs is None else idxs
+        for i in idxs:
+            if i < len(c.args):
+                v = env.ev(c.args[i])
+                if any(t[0] == 'lazyres' for t in v.tags):
+                    out.append(c)
+                    break
+    return out
+
+
+def check_lambda_results_stream(repo, rep, uni):
+    """R14f: what a per-element lambda returns inside a streaming operator
+    (the inner collection of selectMany, a generated sequence) is a stream
+    of its own: the operator hands its elements on as they are requested.
+    An eager consumer applied to it (tuple(), list(), sorted() ...) reads
+    the whole inner stream before the first of its elements is produced."""
+    from sa import origins
+    n = 0
+    for name, modname in STREAMING:
+        for ov in uni.reg.by_name(name, 'default'):
+            fi = ov.func
+            if fi.module.name != modname or not any(
+                    p.type.lazy for p in ov.params):
+                continue
+            n += 1
+            bad = _drained_lambda_results(repo, fi, uni.env(fi))
+            rep.ob('R14f', '%s[%s]' % (fi.key, name), not bad,
+                   '%s (registered as `%s`) reads the whole result of a '
+                   'per-element lambda at once (`%s`): a pipeline whose '
+                   'lambda returns a long or endless stream no longer '
+                   'yields its first elements' % (
+                       fi.qualname, name, model.norm(bad[0])[:60]
+                       if bad else ''),
+                   loc=fi.module.loc(bad[0] if bad else fi.node),
+                   construct=model.norm(bad[0])[:100] if bad else '')
+    from sa.rules import c09
+    fm = c09.load_fixture(repo, 'c14_fixture.py')
+    repo.modules[fm.name] = fm
+    try:
+        flagged = set()
+        for f in fm.functions.values():
+            tags = {'collection': ({('param', 'collection')},
+                                   {('derived', 'collection')}),
+                    'selector': ({('lazy', 'selector')}, set())}
+            env = origins.Env(repo, f, tags, None, uni.summaries())
+            if _drained_lambda_results(repo, f, env):
+                flagged.add(f.name)
+    finally:
+        del repo.modules[fm.name]
+    rep.ob('R14f', 'fixtures/c14_fixture.py/positive-control',
+           flagged == {'bad_materialises_inner'},
+           'positive control: expected bad_materialises_inner flagged and '
+           'ok_streams_inner silent; flagged %s' % sorted(flagged))
+    rep.floor('streaming operators with a per-element lambda', n, 8)
+
+
 def check_wrapper_classes(repo, rep):
     """R14e: the objects the plumbing wraps a lazy source in must not answer
     whole-collection questions (len, truth, membership, indexing) by
@@ -394,6 +457,8 @@ def run(repo, rep):
              'only a not-found constant follows the loop')
     rep.rule('R14d', 'THE-PLUMBING-IS-LAZY: Iterable.convert, '
              'utils.limit_iterable and utils.memorize satisfy R14a')
+    rep.rule('R14f', 'LAMBDA-RESULTS-STREAM: no eager consumer is applied to '
+             'the result of a per-element lambda inside a streaming operator')
     rep.rule('R14e', 'WRAPPERS-ARE-NOT-SIZED-BY-READING: the wrapper classes '
              'returned by memorize/limit_iterable do not define len/truth/'
              'membership/indexing by iterating the source')
@@ -414,6 +479,7 @@ def run(repo, rep):
                 armed=False)
     n3 = check_plumbing(repo, rep, cons)
     check_wrapper_classes(repo, rep)
+    check_lambda_results_stream(repo, rep, uni)
     rep.count(streaming_sources=n1, search_sources=n2, plumbing_sites=n3)
     rep.floor('streaming operator source parameters', n1, 22)
     rep.floor('search source parameters', n2, 5)
